@@ -31,6 +31,7 @@ class Pools:
         self.use = {}
         self.res = []      # real ReservedResources
         self.hold = []     # model holdings
+        self.approx = False
         self.watched = []  # (dict handed to reserve_resources, its content then, reservation index)
         self.c = {'ops': 0, 'raised': 0, 'reserve_ok': 0, 'reserve_refused': 0, 'multi_failed_after_success': 0,
                   'over_capacity_states': 0, 'merges': 0, 'partial_releases': 0, 'invalid_rejected': 0}
@@ -73,6 +74,12 @@ class Pools:
                 self.res[op[1] % len(self.res)].release(None if op[2] is None else dict(op[2]))
             elif k == 'merge':
                 self.res[op[1] % len(self.res)].merge(self.res[op[2] % len(self.res)])
+            elif k == 'reinit':
+                # the same manager is handed to another System / Environment and initialised again while
+                # reservations are outstanding: nothing about the pools changes
+                env2 = Environment(resource_manager=rm)
+                rm.initialize(env2)
+                self.env = env2
             else:
                 raise ValueError(op)
         except Exception as e:   # which exception is raised is not checked
@@ -187,12 +194,13 @@ class Pools:
         for n in NAMES:
             u, c_ = rm.get_resource_usage(n), rm.get_resource_capacity(n)
             mu, mc = self.use.get(n, 0), self.cap.get(n, 0)
-            if u < 0:
+            if u < (-1e-9 if self.approx else 0):
                 raise Violation('C09.usage-negative', f'after {op}: usage of {n} is {u}')
             if c_ < 0:
                 raise Violation('C09.capacity-negative', f'after {op}: capacity of {n} is {c_}')
             held = sum(norm(r.reserved_resources).get(n, 0) for r in self.res)
-            if u != held:
+            # decimal amounts: the two sums are formed in different orders, so they may differ by rounding
+            if (abs(u - held) > 1e-9) if self.approx else (u != held):
                 raise Violation('C09.usage-vs-holdings', f'after {op}: usage of {n} is {u} but outstanding '
                                 f'reservations hold {held}')
             if (u, c_) != (mu, mc):
@@ -212,6 +220,7 @@ class Pools:
 def run_pools(case):
     pre = case.get('before_start') or []
     p = Pools(initialise=not pre)
+    p.approx = bool(case.get('decimal'))
     with installed(Weights('const')):
         # the model is set up before the simulation starts: pools are declared then, and a request made then is
         # answered (only requests that take nothing are issued: a request that does not fit, or asks for nothing)
@@ -232,7 +241,7 @@ def run_pools(case):
 
 # ============================================================================== C10 waiting requests
 
-CONSUME_ONLY = ('none', 'same', 'other', 'more')
+CONSUME_ONLY = ('none', 'same', 'twice', 'other', 'more')
 
 
 def order_fixed(beh):
@@ -297,6 +306,10 @@ class PureWaiters:
         k = b[0]
         if k == 'same':
             self.reserve(req)
+        elif k == 'twice':
+            # "take as many sets as fit": the request it was handed, reserved twice
+            self.reserve(req)
+            self.reserve(req)
         elif k == 'other':
             self.reserve(b[1])
         elif k == 'release':
@@ -346,8 +359,19 @@ class RealWaiters:
             return
         self.rm.add_resources(n, v)
 
+    pool_oracles = False
+
     def reserve(self, req):
+        fit = self.fits_public(req)
         r = self.rm.reserve_resources(req)
+        if self.pool_oracles and all(v >= 0 for v in req.values()):
+            where = 'inside a callback' if self.depth else 'outside callbacks'
+            if r is not None and not fit:
+                raise Violation('C09.unfit-granted', f'reserve_resources({req}) {where} at {self.env.now} was granted although '
+                                f'it did not fit into capacity minus usage')
+            if r is None and fit:
+                raise Violation('C09.fit-refused', f'reserve_resources({req}) {where} at {self.env.now} was refused although '
+                                f'every amount fits')
         if r is not None:
             self.res.append(r)
             if self.depth:
@@ -434,6 +458,10 @@ class RealWaiters:
         k = b[0]
         if k == 'same':
             self.reserve(req)
+        elif k == 'twice':
+            # "take as many sets as fit": the request it was handed, reserved twice
+            self.reserve(req)
+            self.reserve(req)
         elif k == 'other':
             self.reserve(b[1])
         elif k == 'release':
@@ -452,10 +480,11 @@ class RealWaiters:
                                 f'availability checks of instant {self.env.now - d} ran')
 
 
-def run_waiters(case):
+def run_waiters(case, pool_oracles=False):
     pure = PureWaiters()
     with installed(Weights(*case.get('tb', ['const', 0]))):
         real = RealWaiters(case.get('tb'))
+        real.pool_oracles = pool_oracles
         for op in case['ops']:
             k, args = op[0], op[1:]
             getattr(pure, k)(*args)
